@@ -87,7 +87,7 @@ const (
 	riComplete
 )
 
-// riSgr: (ESC [ | 0x9B) < P ; P ; P (M|m),  P = -?[0-9]+
+// riSgr: (ESC [ | 0x9B) < P ; P ; P (M|m),  P = -?[0-9]*  (an empty field reads as 0, as ECMA-48 parameters do)
 func riSgr(b []byte) (int, int) {
 	i := 0
 	if len(b) == 0 {
@@ -128,9 +128,7 @@ func riSgr(b []byte) (int, int) {
 		if i >= len(b) {
 			return riNeedMore, 0
 		}
-		if nd == 0 {
-			return riReject, 0
-		}
+		_ = nd
 		if f < 2 {
 			if b[i] != ';' {
 				return riReject, 0
